@@ -48,7 +48,7 @@ def cfgs(base_list):
 HARNESSES = [
     dict(name="scan", src="scan.c",
          funcs=["do_one_pass", "count_tags", "jread"],
-         configs=cfgs([{"FEAT_64BIT": 0}, {"FEAT_64BIT": 1}]),
+         configs=cfgs([{"FEAT_64BIT": 0, "REF_MAXWALK": 6}, {"FEAT_64BIT": 1, "REF_MAXWALK": 6}]),
          unwind=3, cbmc_flags=["--max-field-sensitivity-array-size", "128"],
          backends=["default", "kissat"],
          bound="journal of 6 blocks of 64 bytes, every byte symbolic; s_first, s_start, s_sequence symbolic; log walk <= 10 header blocks"),
